@@ -770,6 +770,19 @@ func (c *Ctx) ParamsDoc(withPathVars bool, withBodies ...bool) *Doc {
 		}
 		pi := &PathItem{}
 		d.Paths["/"+strings.Join(segs, "/")] = pi
+		// a sibling that is constant where this template has its first variable and goes on
+		// differently below it (/items/special/about beside /items/{id}/sub)
+		for vi, sgm := range segs {
+			if !strings.HasPrefix(sgm, "{") {
+				continue
+			}
+			if vi+1 < len(segs) && segs[vi+1] != "" && rapid.IntRange(0, 2).Draw(t, "constant_sibling") == 0 {
+				sib := append(append([]string{}, segs[:vi]...), constSeg("k"), constSeg("t"))
+				d.Paths["/"+strings.Join(sib, "/")] = &PathItem{Get: MinimalOp()}
+				c.Tag("path:constant-sibling-of-variable")
+			}
+			break // the first variable only: everything before it is constant
+		}
 		mkParam := func(in string, level string) *Parameter {
 			if in == "header" {
 				return c.Param(in, c.SafeName("X-H", "pname"), rapid.Bool().Draw(t, "param_required"))
